@@ -11,7 +11,8 @@ Inductive op19 :=
   | PRetrieve (i : string)
   | PFault (i : string) (content : string) (readable : bool)   (* the harness damages / plants an entry *)
   | PRemove (i : string)
-  | PWipe.                                                     (* the harness removes the whole directory *)
+  | PWipe                                                      (* the harness removes the whole directory *)
+  | PLitter.                                                   (* files that are not entries appear in the directory: no effect *)
 
 Record case19 := mk_case19 {
   k_ids : list (Z * option string);   (* token -> Metadata.Id (None: no metadata) *)
@@ -47,6 +48,7 @@ Section Inst.
                  | DDir u fs => DDir u (filter (fun kv => negb (String.eqb (fst kv) (fname i))) fs)
                  | x => x end)
     | PWipe => ((0, 0), match s with DDir _ _ => DAbsent true | x => x end)
+    | PLitter => ((0, 0), s)
     end.
 
   Fixpoint run19 (s : dirstate) (os : list op19) : list (Z * Z) :=
